@@ -338,8 +338,10 @@ def control(ctx, module, base_cfg, variant, **consts):
 
 
 def dedupe(rows):
+    """distinct cases in a fixed order (TLC's workers write lines in a run-dependent order; the seed-selected
+    subsample must not depend on it)"""
     seen, out = set(), []
-    for r in rows:
+    for r in sorted(rows, key=lambda r: (r["kind"], r.get("fam", ""), bytes(r["src"]))):
         k = (r["kind"], bytes(r["src"]))
         if k not in seen:
             seen.add(k)
@@ -353,18 +355,21 @@ def run(ctx):
     tree = ctx.build()
     ctx.phase("build done")
     import c11_cp
-    outs = {k: os.path.join(ctx.scratch, k + ".ndjson") for k in ("int", "str", "utf", "flt")}
+    outs = {k: os.path.join(ctx.scratch, k + ".ndjson") for k in ("int", "str", "cat", "utf", "flt")}
     jobs = [
         lambda: tlc_gen(ctx, "LitInt", "LitInt.cfg", outs["int"], "convert_pp_int's ladder (Level I) differs from 6.4.4.1 (Level A)", Emit=True),
-        lambda: tlc_gen(ctx, "LitStr", "LitStr.cfg", outs["str"], "character constant / string literal design differs from 6.4.4.4 / 6.4.5", Emit=True, Small=q),
+        lambda: tlc_gen(ctx, "LitStr", "LitStr.cfg", outs["str"], "character constant / string literal design differs from 6.4.4.4 / 6.4.5",
+                        Emit=True, Small=q, Fams='{"chr","str","seq"}'),
         lambda: tlc_gen(ctx, "LitFlt", "LitFlt.cfg", outs["flt"], "floating constant model is inconsistent", workers=2, Emit=True),
         lambda: control(ctx, "LitInt", "LitInt.cfg", "skip-unsigned-hex"),
         lambda: control(ctx, "LitInt", "LitInt.cfg", "l-ignored-hex"),
         lambda: control(ctx, "LitStr", "LitStr.cfg", "no-widen", Small=True, Fams='{"cat"}'),
         lambda: control(ctx, "LitStr", "LitStr.cfg", "U-sign-extends", Small=True, Fams='{"chr"}'),
     ]
+    cat = lambda: tlc_gen(ctx, "LitStr", "LitStr.cfg", outs["cat"], "concatenation of adjacent string literals differs from 6.4.5p5",
+                          Emit=True, Small=q, Fams='{"cat"}')
     more = c11_cp.tlc_jobs(ctx, outs["utf"])
-    jobs = [jobs[1], jobs[0], more[0], jobs[2], more[3]] + jobs[3:] + [more[1], more[2], more[4], more[5]]    # generators first
+    jobs = [jobs[1], cat, jobs[0], more[0], jobs[2], more[3]] + jobs[3:] + [more[1], more[2], more[4], more[5]]    # generators first
     errs = []
 
     def guarded(j):
@@ -377,8 +382,8 @@ def run(ctx):
         raise errs[0]
     ctx.phase("models done")
 
-    ints = vt.read_ndjson(outs["int"])
-    strs = dedupe(vt.read_ndjson(outs["str"]))
+    ints = dedupe(vt.read_ndjson(outs["int"]))
+    strs = dedupe(vt.read_ndjson(outs["str"]) + vt.read_ndjson(outs["cat"]))
     flts = dedupe(vt.read_ndjson(outs["flt"]))
     if len(flts) < 3000:
         raise Infra("LitFlt wrote only %d cases" % len(flts))
